@@ -63,10 +63,12 @@ class MatrixGenerator:
 
     def apply(self, state: np.ndarray) -> np.ndarray:
         """Multiplies (from left) this matrix by a n*m matrix."""
-        ans = self.matrix @ state
         if self.modulo > 0:
-            ans %= self.modulo
-        return ans
+            # Reduce the products before summing, so that the sum cannot overflow int64.
+            state = np.asarray(state)
+            prod = (self.matrix[:, :, np.newaxis] * state.reshape((self.n, -1))[np.newaxis, :, :]) % self.modulo
+            return (prod.sum(axis=1) % self.modulo).reshape(state.shape)
+        return self.matrix @ state
 
     def apply_batch_torch(self, states: torch.Tensor) -> torch.Tensor:
         """Multiplies (from left) this matrix by a batch of n*m torch Tensors."""
